@@ -125,6 +125,56 @@ def run(ck: Check):
             else:
                 cases.append((det, cfg, ops, None))
                 impl.append(out)
+    # (own generator: independent of the draws above)
+    import random as _random
+    import numpy as _np
+
+    prng = _random.Random(70707)
+    # (i) the same small integer values carried by narrow NumPy integer scalars: the statistic is that of the VALUES
+    #     (an unsigned / 8-bit difference must not wrap)
+    for det in DETS:
+        for dt in (_np.uint8, _np.int8, _np.uint16, _np.int64):
+            hi = 100 if dt is _np.int8 else 250
+            ints = [prng.randrange(0, hi) for _ in range(prng.choice([12, 30]))]
+            cfg = det.gen_cfg(prng)
+            cfg["min_num_instances"] = prng.choice([1, 3])
+            cfg["lambda_"] = prng.choice([5.0, 40.0])
+            out, exc, _ = run_impl(det, cfg, [dt(v) for v in ints])
+            if exc is not None:
+                ck.violation(dict(clause="raises", detector=det.name, dtype=dt.__name__), dict(detector=det.name, config=cfg, stream=ints[: len(out) + 1], dtype=dt.__name__, error=repr(exc)))
+                continue
+            g = spec(det, cfg, [float(v) for v in ints])
+            ck.case(dict(detector=det.name, config=cfg, kind="typed-integers", dtype=dt.__name__, n=len(ints)), nontrivial=any(o[0] for o in out), key=repr(("typed", det.name, dt.__name__, cfg, ints)))
+            ck.count("typed_integer_streams")
+            for t, (o, gt) in enumerate(zip(out, g)):
+                if not (abs(float(o[3][1]) - gt) <= 1e-7 * 250 * max(1.0, abs(gt))):
+                    ck.violation(dict(clause="recurrence", detector=det.name, dtype=dt.__name__), dict(what="statistic differs from the recurrence when the values arrive as narrow NumPy integers", detector=det.name, config=cfg, dtype=dt.__name__, stream=ints[: t + 1], got=float(o[3][1]), expected=gt))
+                    break
+    # (ii) many quiet values, one huge value (a glitch), then values sitting 0.75 above the running mean, with alpha at
+    #      and next to 0: g_t = alpha g_{t-1} + (1-alpha)(x_t - m_t) must be evaluated as written (an algebraically equal
+    #      incremental form g += (1-alpha)(x - m - g) absorbs the ordinary deviation into the huge previous g)
+    for det in DETS:
+        if det.name != "GeometricMovingAverage":
+            continue
+        for alpha in (0.0, 1e-20):
+            cfg = det.gen_cfg(prng)
+            cfg.update(alpha=alpha, min_num_instances=2, lambda_=0.5)
+            xs = [0.0] * 999 + [1e17]
+            for _ in range(3):
+                t = len(xs) + 1
+                xs.append((math.fsum(xs) / t + 0.75) * t / (t - 1))
+            out, exc, _ = run_impl(det, cfg, xs)
+            if exc is not None:
+                ck.violation(dict(clause="raises", detector=det.name, regime="glitch"), dict(detector=det.name, config=cfg, stream_tail=xs[-4:], error=repr(exc)))
+                continue
+            g = spec(det, cfg, xs)
+            ck.case(dict(detector=det.name, config=cfg, kind="glitch-then-ordinary"), nontrivial=True, key=repr(("glitch", det.name, cfg)))
+            ck.count("glitch_streams")
+            for t in range(1000, len(xs)):
+                # the running mean is ~1e14 here (spacing of doubles 0.016): 0.2 absolute is far above its rounding
+                if not (abs(float(out[t][3][1]) - g[t]) <= 0.2) or bool(out[t][0]) != (g[t] > cfg["lambda_"]):
+                    ck.violation(dict(clause="recurrence", detector=det.name, regime="glitch"), dict(what="after one huge value the statistic no longer follows g_t = alpha g_{t-1} + (1-alpha)(x_t - m_t)", detector=det.name, config=cfg, stream="999 zeros, 1e17, then values 0.75 above the running mean", tail=xs[-4:], step=t + 1, got=float(out[t][3][1]), expected=g[t], drift=bool(out[t][0])))
+                    break
     models = run_models("C07", cases)
     from detectors import corr_compare
 
